@@ -68,6 +68,11 @@ pub fn atoms(thorough: bool) -> Vec<Atom> {
     for p in crate::c09::programs() {
         v.push(atom(format!("roles|{}", p.key), p.src, true));
     }
+    for (i, p) in crate::c08::space(false).into_iter().enumerate() {
+        if p.key.starts_with("io-nested") || p.key.starts_with("single|") && hash64(&p.key) % 16 == 0 || i % if thorough { 97 } else { 997 } == 0 {
+            v.push(atom(format!("roles8|{}", p.key), p.src, true));
+        }
+    }
     // ---- resources
     let table = crate::c02::resource_table(true);
     for r in &table {
